@@ -802,14 +802,10 @@ async fn ctl_service<R>(c: Control<TErr>, log: Log, mode: CtlMode, own: Option<R
 }
 
 /// Start a v5 server connection; returns the harness-side handle.
-pub async fn start_v5_server(cfg: &EpCfg) -> Conn {
-    let h = Handles::new(cfg);
-    let (peer, server_io) = IoTest::create();
-    peer.remote_buffer_cap(BIG);
-    let scfg = cfg.shared_cfg();
-
-    let (log, hg, sink, c) = (h.log.clone(), h.hgates.clone(), h.sink.clone(), cfg.clone());
-    let handshake = move |hs: v5::Handshake| {
+macro_rules! v5_parts {
+    ($h:ident, $cfg:ident, $handshake:ident, $protocol:ident, $control:ident) => {
+    let (log, hg, sink, c) = ($h.log.clone(), $h.hgates.clone(), $h.sink.clone(), $cfg.clone());
+    let $handshake = move |hs: v5::Handshake| {
         let (log, hg, sink, c) = (log.clone(), hg.clone(), sink.clone(), c.clone());
         async move {
             log.push(Rec::Handshake(format!(
@@ -864,8 +860,8 @@ pub async fn start_v5_server(cfg: &EpCfg) -> Conn {
         }
     };
 
-    let (log, pg, c) = (h.log.clone(), h.pgates.clone(), cfg.clone());
-    let protocol = move |msg: v5::ProtocolMessage| {
+    let (log, pg, c) = ($h.log.clone(), $h.pgates.clone(), $cfg.clone());
+    let $protocol = move |msg: v5::ProtocolMessage| {
         let (log, pg, _c) = (log.clone(), pg.clone(), c.clone());
         async move {
             let (kind, pid) = match &msg {
@@ -912,8 +908,8 @@ pub async fn start_v5_server(cfg: &EpCfg) -> Conn {
         }
     };
 
-    let (log, mode) = (h.log.clone(), cfg.ctl);
-    let control = fn_factory_with_config(move |_: v5::Session<()>| {
+    let (log, mode) = ($h.log.clone(), $cfg.ctl);
+    let $control = fn_factory_with_config(move |_: v5::Session<()>| {
         let log = log.clone();
         async move {
             Ok::<_, TErr>(fn_service(move |c: Control<TErr>| {
@@ -925,6 +921,96 @@ pub async fn start_v5_server(cfg: &EpCfg) -> Conn {
         }
     });
 
+    };
+}
+
+macro_rules! v3_parts {
+    ($h:ident, $cfg:ident, $handshake:ident, $protocol:ident, $control:ident) => {
+    let (log, hg, sink, c) = ($h.log.clone(), $h.hgates.clone(), $h.sink.clone(), $cfg.clone());
+    let $handshake = move |hs: v3::Handshake| {
+        let (log, hg, sink, c) = (log.clone(), hg.clone(), sink.clone(), c.clone());
+        async move {
+            log.push(Rec::Handshake(format!("connect id={} ka={}", hs.packet().client_id, hs.packet().keep_alive)));
+            *sink.borrow_mut() = Some(Sink::V3(hs.sink()));
+            match c.hs {
+                HsMode::Refuse => return Ok(hs.not_authorized::<()>()),
+                HsMode::Error => return Err(TErr::Plain),
+                HsMode::Gated => {
+                    let k = hg.enter();
+                    hg.wait(k).await;
+                }
+                HsMode::Accept => {}
+            }
+            let mut ack = hs.ack((), false);
+            if let Some(k) = c.hs_keepalive {
+                ack = ack.idle_timeout(Seconds(k));
+            }
+            if c.hs_max_send.is_some() {
+                ack = ack.max_send(c.hs_max_send);
+            }
+            if let Some(v) = c.hs_max_packet_size {
+                if let Some(v) = std::num::NonZeroU32::new(v) {
+                    ack = ack.max_packet_size(v);
+                }
+            }
+            log.push(Rec::Handshake("accepted".into()));
+            Ok::<_, TErr>(ack)
+        }
+    };
+
+    let (log, pg) = ($h.log.clone(), $h.pgates.clone());
+    let $protocol = move |msg: v3::ProtocolMessage| {
+        let (log, pg) = (log.clone(), pg.clone());
+        async move {
+            let (kind, pid) = match &msg {
+                v3::ProtocolMessage::PublishRelease(m) => ("pubrel", m.packet_id.get()),
+                v3::ProtocolMessage::Subscribe(m) => ("sub", { let _ = m; 0 }),
+                v3::ProtocolMessage::Unsubscribe(m) => ("unsub", { let _ = m; 0 }),
+                v3::ProtocolMessage::Disconnect(_) => ("disconnect", 0),
+                v3::ProtocolMessage::Ping(_) => ("ping", 0),
+            };
+            let mut msg = msg;
+            let kind = match &mut msg {
+                v3::ProtocolMessage::Subscribe(m) => format!("sub:{}", m.iter_mut().next().map(|s| s.topic().to_string()).unwrap_or_default()),
+                v3::ProtocolMessage::Unsubscribe(m) => format!("unsub:{}", m.iter().next().map(|s| s.to_string()).unwrap_or_default()),
+                _ => kind.to_string(),
+            };
+            let (o, mut guard) = gated_proto(&log, &pg, &kind, pid).await;
+            guard.finish();
+            log.push(Rec::PExit { k: guard.k });
+            match o {
+                GateOutcome::Ok => Ok::<_, TErr>(match msg {
+                    v3::ProtocolMessage::Subscribe(mut m) => {
+                        m.iter_mut().for_each(|mut s| s.confirm(v3::QoS::AtMostOnce));
+                        m.ack()
+                    }
+                    v3::ProtocolMessage::Unsubscribe(m) => m.ack(),
+                    m => m.ack(),
+                }),
+                GateOutcome::Nack(_) => Ok(msg.disconnect()),
+                GateOutcome::Err => Err(TErr::Plain),
+            }
+        }
+    };
+
+    let (log, mode) = ($h.log.clone(), $cfg.ctl);
+    let $control = fn_factory_with_config(move |_: v3::Session<()>| {
+        let log = log.clone();
+        async move {
+            Ok::<_, TErr>(fn_service(move |c: Control<TErr>| ctl_service::<v3::codec::Encoded>(c, log.clone(), mode, None)))
+        }
+    });
+
+    };
+}
+
+pub async fn start_v5_server(cfg: &EpCfg) -> Conn {
+    let h = Handles::new(cfg);
+    let (peer, server_io) = IoTest::create();
+    peer.remote_buffer_cap(BIG);
+    let scfg = cfg.shared_cfg();
+
+    v5_parts!(h, cfg, handshake, protocol, control);
     let (log, g, rg, c) = (h.log.clone(), h.gates.clone(), h.rgates.clone(), cfg.clone());
     let log_done = h.log.clone();
     let io = IoBoxed::from(Io::new(server_io, scfg.clone()));
@@ -1007,81 +1093,7 @@ pub async fn start_v3_server(cfg: &EpCfg) -> Conn {
     peer.remote_buffer_cap(BIG);
     let scfg = cfg.shared_cfg();
 
-    let (log, hg, sink, c) = (h.log.clone(), h.hgates.clone(), h.sink.clone(), cfg.clone());
-    let handshake = move |hs: v3::Handshake| {
-        let (log, hg, sink, c) = (log.clone(), hg.clone(), sink.clone(), c.clone());
-        async move {
-            log.push(Rec::Handshake(format!("connect id={} ka={}", hs.packet().client_id, hs.packet().keep_alive)));
-            *sink.borrow_mut() = Some(Sink::V3(hs.sink()));
-            match c.hs {
-                HsMode::Refuse => return Ok(hs.not_authorized::<()>()),
-                HsMode::Error => return Err(TErr::Plain),
-                HsMode::Gated => {
-                    let k = hg.enter();
-                    hg.wait(k).await;
-                }
-                HsMode::Accept => {}
-            }
-            let mut ack = hs.ack((), false);
-            if let Some(k) = c.hs_keepalive {
-                ack = ack.idle_timeout(Seconds(k));
-            }
-            if c.hs_max_send.is_some() {
-                ack = ack.max_send(c.hs_max_send);
-            }
-            if let Some(v) = c.hs_max_packet_size {
-                if let Some(v) = std::num::NonZeroU32::new(v) {
-                    ack = ack.max_packet_size(v);
-                }
-            }
-            log.push(Rec::Handshake("accepted".into()));
-            Ok::<_, TErr>(ack)
-        }
-    };
-
-    let (log, pg) = (h.log.clone(), h.pgates.clone());
-    let protocol = move |msg: v3::ProtocolMessage| {
-        let (log, pg) = (log.clone(), pg.clone());
-        async move {
-            let (kind, pid) = match &msg {
-                v3::ProtocolMessage::PublishRelease(m) => ("pubrel", m.packet_id.get()),
-                v3::ProtocolMessage::Subscribe(m) => ("sub", { let _ = m; 0 }),
-                v3::ProtocolMessage::Unsubscribe(m) => ("unsub", { let _ = m; 0 }),
-                v3::ProtocolMessage::Disconnect(_) => ("disconnect", 0),
-                v3::ProtocolMessage::Ping(_) => ("ping", 0),
-            };
-            let mut msg = msg;
-            let kind = match &mut msg {
-                v3::ProtocolMessage::Subscribe(m) => format!("sub:{}", m.iter_mut().next().map(|s| s.topic().to_string()).unwrap_or_default()),
-                v3::ProtocolMessage::Unsubscribe(m) => format!("unsub:{}", m.iter().next().map(|s| s.to_string()).unwrap_or_default()),
-                _ => kind.to_string(),
-            };
-            let (o, mut guard) = gated_proto(&log, &pg, &kind, pid).await;
-            guard.finish();
-            log.push(Rec::PExit { k: guard.k });
-            match o {
-                GateOutcome::Ok => Ok::<_, TErr>(match msg {
-                    v3::ProtocolMessage::Subscribe(mut m) => {
-                        m.iter_mut().for_each(|mut s| s.confirm(v3::QoS::AtMostOnce));
-                        m.ack()
-                    }
-                    v3::ProtocolMessage::Unsubscribe(m) => m.ack(),
-                    m => m.ack(),
-                }),
-                GateOutcome::Nack(_) => Ok(msg.disconnect()),
-                GateOutcome::Err => Err(TErr::Plain),
-            }
-        }
-    };
-
-    let (log, mode) = (h.log.clone(), cfg.ctl);
-    let control = fn_factory_with_config(move |_: v3::Session<()>| {
-        let log = log.clone();
-        async move {
-            Ok::<_, TErr>(fn_service(move |c: Control<TErr>| ctl_service::<v3::codec::Encoded>(c, log.clone(), mode, None)))
-        }
-    });
-
+    v3_parts!(h, cfg, handshake, protocol, control);
     let (log, g, rg, c) = (h.log.clone(), h.gates.clone(), h.rgates.clone(), cfg.clone());
     let publish = move |p: v3::Publish| v3_publish_handler(p, c.clone(), log.clone(), g.clone(), rg.clone());
     let log_done = h.log.clone();
@@ -1120,6 +1132,42 @@ pub async fn start_v3_server(cfg: &EpCfg) -> Conn {
         sent: Vec::new(),
         auto_pump: true,
     }
+}
+
+/// Combined server (`ntex_mqtt::MqttServer` with both protocol versions); `cfg.ver` is ignored for routing,
+/// both services share the handles (log, gates) so the log tells which one accepted the CONNECT
+/// (the v5 handshake record carries " rm=").
+pub async fn start_combined_server(cfg: &EpCfg) -> Conn {
+    start_combined_server_prefilled(cfg, &[]).await
+}
+
+/// `prefill`: bytes the peer has already written when the server starts (they are in the read buffer
+/// when the version is sniffed for the first time)
+pub async fn start_combined_server_prefilled(cfg: &EpCfg, prefill: &[u8]) -> Conn {
+    let h = Handles::new(cfg);
+    let (peer, server_io) = IoTest::create();
+    peer.remote_buffer_cap(BIG);
+    if !prefill.is_empty() {
+        peer.write(prefill);
+    }
+    let scfg = cfg.shared_cfg();
+    v3_parts!(h, cfg, handshake3, protocol3, control3);
+    v5_parts!(h, cfg, handshake5, protocol5, control5);
+    let (log, g, rg, c) = (h.log.clone(), h.gates.clone(), h.rgates.clone(), cfg.clone());
+    let publish3 = move |p: v3::Publish| v3_publish_handler(p, c.clone(), log.clone(), g.clone(), rg.clone());
+    let (log, g, rg, c) = (h.log.clone(), h.gates.clone(), h.rgates.clone(), cfg.clone());
+    let publish5 = move |p: v5::Publish| v5_publish_handler(p, c.clone(), log.clone(), g.clone(), rg.clone(), "");
+    let srv3 = v3::MqttServer::new(handshake3).protocol(protocol3).control(control3).publish(publish3);
+    let srv5 = v5::MqttServer::new(handshake5).protocol(protocol5).control(control5).publish(publish5);
+    let srv = ntex_mqtt::MqttServer::<_, _, TErr, ()>::new().v3(srv3).v5(srv5);
+    let svc = ServiceFactory::<IoBoxed, SharedCfg>::create(&srv, scfg.clone()).await.expect("create combined server");
+    let io = IoBoxed::from(Io::new(server_io, scfg));
+    let log_done = h.log.clone();
+    ntex_rt::spawn(async move {
+        let r = Pipeline::new(svc).call(io).await;
+        log_done.push(Rec::ConnDone(format!("{r:?}")));
+    });
+    mk_conn(cfg, peer, h)
 }
 
 pub fn bs(s: &str) -> ByteString {
